@@ -408,6 +408,7 @@ func C11(tier string) int {
 		jobs = append(jobs, b)
 	}
 	pool := par.NewPool(Workers(), "worker", "c11")
+	pool.Timeout = 15 * time.Minute // backstop only (jobs take seconds)
 	defer pool.Close()
 	var cases, opens, fallback, rejected int
 	var viols, errs []string
